@@ -385,6 +385,11 @@ func runC08(res *lib.Result, tier string, seed int64, args []string) error {
 					os.WriteFile(filepath.Join(dir, n), []byte(c08Variant(i, v)), 0o644)
 					typ = 1
 					history = append(history, fmt.Sprintf("create %s (variant %d) + didChangeWatchedFiles", n, v))
+					if r.Chance(1, 3) {
+						// the watcher reports the new file twice in one notification: Created, then Changed
+						typ = 12
+						history[len(history)-1] += " [Created, Changed]"
+					}
 				} else if forceV != -2 && r.Chance(1, 2) {
 					v := diskVariant()
 					disk[n] = v
@@ -398,7 +403,11 @@ func runC08(res *lib.Result, tier string, seed int64, args []string) error {
 					typ = 3
 					history = append(history, fmt.Sprintf("delete %s + didChangeWatchedFiles", n))
 				}
-				sess.Watched(map[string]int{n: typ})
+				if typ == 12 {
+					sess.WatchedSeq([][2]interface{}{{n, 1}, {n, 2}})
+				} else {
+					sess.Watched(map[string]int{n: typ})
+				}
 				sess.Sync()
 				saved, _ := langserver.VerifDiagMaps()
 				evs = append(evs, "W~"+n+"~"+encMap(saved))
